@@ -634,6 +634,31 @@ func convCheckC37(c *Ctx, cs *convCase, norm *descriptorpb.FileDescriptorProto) 
 	}
 }
 
+// convUsesMessageSet: MessageSet extensions have their own JSON/text name rule (not modelled).
+func convUsesMessageSet(fd protoreflect.FileDescriptor) bool {
+	found := false
+	var exts func(xs protoreflect.ExtensionDescriptors)
+	exts = func(xs protoreflect.ExtensionDescriptors) {
+		for i := 0; i < xs.Len(); i++ {
+			if m := xs.Get(i).ContainingMessage(); m != nil && !m.IsPlaceholder() {
+				if o, ok := m.Options().(*descriptorpb.MessageOptions); ok && o.GetMessageSetWireFormat() {
+					found = true
+				}
+			}
+		}
+	}
+	var msgs func(ms protoreflect.MessageDescriptors)
+	msgs = func(ms protoreflect.MessageDescriptors) {
+		for i := 0; i < ms.Len(); i++ {
+			exts(ms.Get(i).Extensions())
+			msgs(ms.Get(i).Messages())
+		}
+	}
+	exts(fd.Extensions())
+	msgs(fd.Messages())
+	return found
+}
+
 // ---------------------------------------------------------------- linked files
 
 func convLinked(c *Ctx) {
@@ -698,6 +723,24 @@ func convLinked(c *Ctx) {
 		if df := convDiff(convSnap(d, convSnapOpts{features: true}), convSnap(fdB, convSnapOpts{features: true})); df != "" {
 			// two runs of the same builder (protoc's bytes vs re-marshalled bytes)
 			c.PropFail("C37", "builder_not_stable_under_reserialisation:linked", in, df)
+		}
+		// the Coq model on the linked schema (names are already absolute: p is its own normal form)
+		if reg == protodesc.Resolver(protoregistry.GlobalFiles) && !convUsesMessageSet(fd2) {
+			env := convLocalEnv(p)
+			var direct []protoreflect.FileDescriptor
+			for i := 0; i < d.Imports().Len(); i++ {
+				if imp := d.Imports().Get(i); !imp.IsPlaceholder() {
+					direct = append(direct, imp.FileDescriptor)
+				}
+			}
+			closure := convImportClosure(direct)
+			for _, f := range files {
+				if closure[f.Path()] {
+					convWalkRemote(f, true, env.remote, nil)
+				}
+			}
+			c.Stat("linked_model_cases")
+			convEmitModelCases(c, &convCase{p: p, env: env, reg: reg, origin: "linked"}, fd2, p)
 		}
 	}
 }
